@@ -129,6 +129,28 @@ def nexpr(e, test=False):
         else:
             new.elt = nexpr(e.elt)
         return _canon_comp(new)
+    if isinstance(e, ast.JoinedStr):
+        # f"..{f'a{b}'}.." is f"..a{b}.."; adjacent literal parts are one part
+        parts = []
+        for v in e.values:
+            if isinstance(v, ast.FormattedValue):
+                inner = nexpr(v.value)
+                if isinstance(inner, ast.JoinedStr) and v.conversion == -1 and v.format_spec is None:
+                    parts.extend(inner.values)
+                    continue
+                if isinstance(inner, ast.Constant) and isinstance(inner.value, str) and v.conversion == -1 and v.format_spec is None:
+                    parts.append(inner)
+                    continue
+                parts.append(ast.FormattedValue(inner, v.conversion, nexpr(v.format_spec) if v.format_spec is not None else None))
+            else:
+                parts.append(v)
+        merged = []
+        for v in parts:
+            if isinstance(v, ast.Constant) and merged and isinstance(merged[-1], ast.Constant):
+                merged[-1] = ast.Constant(merged[-1].value + v.value)
+            else:
+                merged.append(v)
+        return ast.JoinedStr(merged)
     # generic: rebuild with normalised expression children
     new = copy.copy(e)
     for f, v in ast.iter_fields(e):
@@ -230,7 +252,10 @@ def _eval_order(node):
         for k in node.keywords:
             yield from _eval_order(k.value)
         yield node
-    elif isinstance(node, (ast.Lambda, ast.ListComp, ast.SetComp, ast.GeneratorExp, ast.DictComp)):
+    elif isinstance(node, (ast.ListComp, ast.SetComp, ast.GeneratorExp, ast.DictComp)):
+        yield from _eval_order(node.generators[0].iter)    # the outermost iterable is evaluated at once, once
+        yield ("opaque", node)
+    elif isinstance(node, ast.Lambda):
         yield ("opaque", node)
     elif isinstance(node, (ast.BoolOp, ast.IfExp)) or (isinstance(node, ast.Compare) and len(node.ops) > 1):
         # operands are evaluated conditionally: only the first one is certain
@@ -270,12 +295,18 @@ def _inline_ok(stmt, name):
     """Is the single load of `name` in `stmt` evaluated before anything that could have a side effect or observe one?"""
     for n in _eval_order(stmt):
         if isinstance(n, tuple):
+            if _pure_expr(n[1]) and not any(isinstance(x, ast.Name) and x.id == name for x in ast.walk(n[1])):
+                continue                                    # an effect-free conditional expression that does not mention the name: passing over it changes nothing
             return False                                    # reached a conditionally / repeatedly / later evaluated region first
         if isinstance(n, ast.Name):
             if n.id == name and isinstance(n.ctx, ast.Load):
                 return True
             continue                                        # reading another plain name has no effect and cannot be affected by evaluating e first
         if isinstance(n, ast.Constant):
+            continue
+        if isinstance(n, ast.Attribute) and pure_simple(n):
+            continue                                        # (reading a.b.c before or after e: the aliasing assumption of the module docstring)
+        if isinstance(n, (ast.JoinedStr, ast.FormattedValue)):
             continue
         return False
     return False
@@ -299,8 +330,9 @@ def _ends_terminal(block):
 def nlist(stmts, info, loop_tail=False):
     """Normal form of a statement list (fresh nodes)."""
     out = []
-    stmts = list(stmts)
+    stmts = _split_tuple_assigns(list(stmts))
     if info is not None:
+        stmts = _sink_and_sort_assigns(stmts, info)
         stmts = _chain_temps(stmts, info)
         stmts = _accumulate_loops(stmts, info)
     i = 0
@@ -443,6 +475,8 @@ def _is_pure_value(e, pure):
         return all(_is_pure_value(x, pure) for x in (e.test, e.body, e.orelse))
     if isinstance(e, ast.Tuple):
         return all(_is_pure_value(x, pure) for x in e.elts)
+    if isinstance(e, ast.JoinedStr):
+        return all(isinstance(v, ast.Constant) or (isinstance(v, ast.FormattedValue) and v.format_spec is None and _is_pure_value(v.value, pure)) for v in e.values)
     if isinstance(e, ast.Call):
         if e.keywords and any(k.arg is None for k in e.keywords):
             return False
@@ -532,7 +566,135 @@ def _prefixes(e):
     return out, e.id
 
 
-def _chain_temps(stmts, info):
+def _split_tuple_assigns(stmts):
+    """`a, b = x, y`  ==  `a = x` ; `b = y`   when no right-hand side reads a target assigned before it (plain names on the left)."""
+    out = []
+    for st in stmts:
+        if isinstance(st, ast.Assign) and len(st.targets) == 1 and isinstance(st.targets[0], ast.Tuple) and isinstance(st.value, ast.Tuple) \
+                and len(st.targets[0].elts) == len(st.value.elts) and all(isinstance(t, ast.Name) for t in st.targets[0].elts) \
+                and not any(isinstance(v, ast.Starred) for v in st.value.elts):
+            names = [t.id for t in st.targets[0].elts]
+            ok = len(set(names)) == len(names)
+            for k, v in enumerate(st.value.elts):
+                if any(isinstance(n, ast.Name) and n.id in names[:k] for n in ast.walk(v)):
+                    ok = False
+            if ok:
+                out.extend(ast.Assign([ast.Name(n, ast.Store())], v) for n, v in zip(names, st.value.elts))
+                continue
+        out.append(st)
+    return out
+
+
+def _simple_init(st, pure):
+    """`name = <constant | empty container | effect-free value>`"""
+    if not (isinstance(st, ast.Assign) and len(st.targets) == 1 and isinstance(st.targets[0], ast.Name)):
+        return False
+    v = st.value
+    if isinstance(v, ast.Constant):
+        return True
+    if isinstance(v, (ast.List, ast.Set, ast.Dict, ast.Tuple)) and not (getattr(v, "elts", None) or getattr(v, "keys", None)):
+        return True
+    if isinstance(v, ast.Call) and isinstance(v.func, ast.Name) and v.func.id in ("set", "list", "dict") and not v.args and not v.keywords:
+        return True
+    return False
+
+
+def _sink_and_sort_assigns(stmts, info):
+    """An initialisation `x = <constant / empty container>` has no effect until x is mentioned: it stands directly in front of the first statement of its block
+    that mentions x; initialisations that end up next to each other are ordered by name. (Two spellings that differ only in where such initialisations stand,
+    or in the order of adjacent ones, get the same normal form.)"""
+    pure = getattr(info, "pure", frozenset())
+    stmts = list(stmts)
+    moved = True
+    guard = 0
+    while moved and guard < 50:
+        moved = False
+        guard += 1
+        for i, st in enumerate(stmts):
+            if not _simple_init(st, pure):
+                continue
+            x = st.targets[0].id
+            if x in info.deferred or x in info.special:
+                continue
+            j = next((k for k in range(i + 1, len(stmts)) if _occ(stmts[k], x)), None)
+            if j is None or j == i + 1:
+                continue
+            # everything skipped must be unable to leave the block with x observable elsewhere: x is only observable through later statements of this block or
+            # after it; leaving early (return / raise / break / continue inside the skipped statements) would leave x unassigned where the original had assigned it
+            skipped = stmts[i + 1:j]
+            if any(isinstance(n, (ast.Return, ast.Raise, ast.Break, ast.Continue, ast.Yield, ast.YieldFrom)) for s_ in skipped for n in ast.walk(s_)):
+                continue
+            stmts = stmts[:i] + skipped + [st] + stmts[j:]
+            moved = True
+            break
+    # adjacent assignments of effect-free values to distinct names, none reading another's target: by name
+    def indep(st):
+        if not (isinstance(st, ast.Assign) and len(st.targets) == 1 and isinstance(st.targets[0], ast.Name)):
+            return False
+        v = st.value
+        if _simple_init(st, pure) or _is_pure_value(v, pure):
+            return True
+        if isinstance(v, ast.Call) and isinstance(v.func, ast.Name) and v.func.id in ("any", "all") and len(v.args) == 1 and isinstance(v.args[0], ast.GeneratorExp):
+            g = v.args[0]
+            return _is_pure_value(g.elt, pure) and all(_is_pure_value(c.iter, pure) and all(_is_pure_value(i, pure) for i in c.ifs) for c in g.generators)
+        return False
+    k = 0
+    while k < len(stmts):
+        m = k
+        while m < len(stmts) and indep(stmts[m]):
+            m += 1
+        if m - k > 1:
+            run = stmts[k:m]
+            names = [r.targets[0].id for r in run]
+            reads = lambda r: {n.id for n in ast.walk(r.value) if isinstance(n, ast.Name)}
+            if len(set(names)) == len(names) and not any(reads(r) & (set(names) - {r.targets[0].id}) for r in run) and not any(r.targets[0].id in reads(r) for r in run):
+                stmts[k:m] = sorted(run, key=lambda r: r.targets[0].id)
+        k = max(m, k + 1)
+    return stmts
+
+
+def _inline_new_temps(fn, info, only):
+    """Apply the temporary rules to every block of fn in place, for the names in `only`."""
+    def visit(node):
+        for f in ("body", "orelse", "finalbody"):
+            blk = getattr(node, f, None)
+            if isinstance(blk, list) and blk and isinstance(blk[0], ast.stmt):
+                for st in blk:
+                    if not isinstance(st, (ast.FunctionDef, ast.AsyncFunctionDef, ast.ClassDef)):
+                        visit(st)
+                new = _chain_temps(blk, info, only)
+                new = _single_use_temps(new, info, only)
+                setattr(node, f, new or [ast.Pass()])
+        if isinstance(node, ast.Try):
+            for h in node.handlers:
+                visit(h)
+    visit(fn)
+
+
+def _single_use_temps(stmts, info, only):
+    """`t = e` read once by the next statement before anything with an effect is evaluated (t in `only`): the next statement with e in place of t."""
+    out = list(stmts)
+    i = 0
+    while i + 1 < len(out):
+        st = out[i]
+        if isinstance(st, ast.Assign) and len(st.targets) == 1 and isinstance(st.targets[0], ast.Name) and st.targets[0].id in only:
+            nm = st.targets[0].id
+            nxt = out[i + 1]
+            if (info.single_use(nm) or (isinstance(nxt, (ast.Return, ast.Raise)) and info.plain_local(nm))) and nm not in info.deferred:
+                hdr = _header_only(nxt)
+                if sum(1 for n in ast.walk(hdr) if isinstance(n, ast.Name) and n.id == nm and isinstance(n.ctx, ast.Load)) == 1 and _inline_ok(nxt, nm):
+                    sub = _Subst(nm, copy.deepcopy(st.value))
+                    new = copy.deepcopy(nxt)
+                    _subst_header(new, sub)
+                    if sub.done == 1:
+                        out[i:i + 2] = [new]
+                        i = max(i - 1, 0)
+                        continue
+        i += 1
+    return out
+
+
+def _chain_temps(stmts, info, only=None):
     """`t = a.b[0]` (assigned once, read only by later statements of this block, no prefix of the chain rebound or handed to anything that
     could rebind it in between) names the chain: every read of t is a read of the chain."""
     stmts = list(stmts)
@@ -541,7 +703,7 @@ def _chain_temps(stmts, info):
         st = stmts[i]
         pure = getattr(info, "pure", frozenset())
         if isinstance(st, ast.Assign) and len(st.targets) == 1 and isinstance(st.targets[0], ast.Name) and not isinstance(st.value, (ast.Name, ast.Constant)) \
-                and (_is_chain(st.value) or _is_pure_value(st.value, pure)):
+                and (_is_chain(st.value) or _is_pure_value(st.value, pure)) and (only is None or st.targets[0].id in only):
             t = st.targets[0].id
             rest = stmts[i + 1:]
             if info.stores.get(t) == 1 and t not in info.special and t not in info.deferred and rest:
@@ -822,6 +984,13 @@ class Restorer:
                 cf.returns = copy.deepcopy(rf.returns)
                 self.restored += len(rf.body)
                 return True
+        # temporaries the reference does not know (names bound here and nowhere in the reference's function) are put back first, in the function itself:
+        # the statement alignment below works on runs of statements and could not see a temporary that is defined in one run and read in another
+        ref_names = {n.id for n in ast.walk(rf) if isinstance(n, ast.Name)}
+        new_names = {n.id for n in ast.walk(cf) if isinstance(n, ast.Name) and isinstance(n.ctx, ast.Store)} - ref_names
+        if new_names:
+            _inline_new_temps(cf, ic, new_names)
+            ic = FnInfo(cf, self.pure_c)
         cf.body = self.block(cf.body, rf.body, ic, ir, False)
         if _args_key(cf.args) == _args_key(rf.args):      # annotations are not behaviour
             cf.args = copy.deepcopy(rf.args)
@@ -1037,8 +1206,13 @@ class _Helper:
         self.expr_only = len(body) == 1 and isinstance(body[0], ast.Return) and body[0].value is not None
         self.tail_return = bool(rets) and len(rets) == 1 and rets[0] is body[-1]
         self.no_return = not rets
+        self.multi = False
         if not (self.expr_only or self.tail_return or self.no_return):
-            self.ok = False
+            tb = _tailify(body)
+            if tb is not None:
+                self.body, self.multi = tb, True
+            else:
+                self.ok = False
         if any(isinstance(n, ast.Name) and n.id == fn.name for st in body for n in ast.walk(st)):
             self.ok = False                                 # recursive
         self.locals = _local_names(fn)
@@ -1075,6 +1249,54 @@ class _Helper:
                     return None
                 m[p] = self.defaults[p]
         return m, extra
+
+
+def _has_return(node):
+    return any(isinstance(n, ast.Return) for n in _walk_own(node))
+
+
+def _tail_complete(stmts):
+    """Every path through stmts ends in a return."""
+    if not stmts:
+        return False
+    last = stmts[-1]
+    if isinstance(last, (ast.Return, ast.Raise)):
+        return True
+    if isinstance(last, ast.If) and last.orelse:
+        return _tail_complete(last.body) and _tail_complete(last.orelse)
+    return False
+
+
+def _tailify(stmts):
+    """Early-return guards turned into if/else so that every `return` is the last thing on its path; None if a return sits inside a loop / try / with."""
+    out = []
+    for i, st in enumerate(stmts):
+        if not _has_return(st):
+            out.append(st)
+            continue
+        if isinstance(st, ast.Return):
+            return out + [st]
+        if isinstance(st, ast.If):
+            rest = stmts[i + 1:]
+            body = _tailify(st.body + ([] if _tail_complete(st.body) else rest))
+            orelse = _tailify((st.orelse if st.orelse else []) + ([] if (st.orelse and _tail_complete(st.orelse)) else rest))
+            if body is None or orelse is None or not _tail_complete(body) or not _tail_complete(orelse):
+                return None
+            return out + [ast.If(st.test, body, orelse)]
+        return None
+    return out if not any(_has_return(x) for x in out) else None
+
+
+def _replace_tail_returns(stmts, make):
+    out = list(stmts[:-1])
+    last = stmts[-1]
+    if isinstance(last, ast.Return):
+        out.extend(make(last.value if last.value is not None else ast.Constant(None)))
+    elif isinstance(last, ast.If):
+        out.append(ast.If(last.test, _replace_tail_returns(last.body, make), _replace_tail_returns(last.orelse, make)))
+    else:
+        out.append(last)
+    return out
 
 
 def _walk_own(node):
@@ -1142,6 +1364,8 @@ def _instantiate(h, call, caller_locals, caller_fn):
     body = [ps.visit(copy.deepcopy(st)) for st in h.body]
     if h.expr_only:
         return [], body[0].value
+    if h.multi:
+        return ("multi", body), None
     if h.tail_return:
         return body[:-1], body[-1].value
     return body, None
@@ -1274,6 +1498,21 @@ def _inline_in_function(fn, helpers, cls):
             h = _callee(call, helpers, cls) if call is not None else None
             if h is not None and not h.expr_only:
                 inst = _instantiate(h, call, caller_locals, fn)
+                if inst is not None and isinstance(inst[0], tuple):
+                    # several returns, each the last thing on its path: every `return e` becomes what this statement does with the result
+                    if isinstance(st, ast.Assign):
+                        make = lambda v, st=st: [ast.Assign(copy.deepcopy(st.targets), v)]
+                    elif isinstance(st, ast.Return):
+                        make = lambda v: [ast.Return(v)]
+                    elif isinstance(st, ast.Expr):
+                        make = lambda v: ([] if _pure_expr(v) else [ast.Expr(v)])
+                    else:
+                        make = None
+                    if make is not None and _tail_complete(inst[0][1]):
+                        used.add(h.fn.name)
+                        out.extend(_replace_tail_returns(inst[0][1], make))
+                        continue
+                    inst = None
                 if inst is not None:
                     pre, val = inst
                     used.add(h.fn.name)
